@@ -20,7 +20,10 @@ var c09Kinds = []int{kH264, kH264AVC, kH265, kH265DONL, kVP8, kVP9, kVP9Flex, kA
 
 func init() {
 	register(&Check{
-		ID: "C09", Level: "exploration", Configs: []string{"lossy", "hostile", "hostile"},
+		ID: "C09",
+		Tenants: func(c *core.Ctx, i int) tenant {
+			return tenantDepack(c, []int{kH264, kH264AVC, kH265, kH265DONL, kVP8, kVP9, kVP9Flex, kAV1Dep, kAV1Pkt, kOpus}[c.T.Intn(10)])
+		}, Level: "exploration", Configs: []string{"lossy", "hostile", "hostile"},
 		Run: runC09, PrePass: prepassC09,
 		QuickRuns:   450_000,
 		ThoroughSec: 720,
